@@ -47,8 +47,7 @@ def run(tier):
 
     def go(j):
         p = vp.run(j[1], timeout=1100)
-        if p.returncode != 0:
-            raise vp.Broken("conv_driver %s rc=%d %s" % (j[0], p.returncode, p.stderr[-300:]))
+        vp.exit_ok(p, "conv_driver " + j[0])
         return j[0], j[1][2]
     with ThreadPoolExecutor(max_workers=vp.NCPU) as ex:
         done = list(ex.map(go, jobs))
